@@ -253,6 +253,31 @@ func runC12(e *Env) error {
 					}
 				}
 			}
+			// statements holding blanks, inside and outside a string literal: an applied statement whose white space
+			// was edited (collapsed, a tab or a line break for a blank, inside the literal or between the words) is
+			// a changed statement
+			if n <= 3 {
+				ws := make([]string, n)
+				for i := range ws {
+					ws[i] = fmt.Sprintf("S%d VALUES ('a  b', 'c d');", i)
+				}
+				for i := 0; i < n; i++ {
+					for name, repl := range map[string]string{
+						"ws-collapse-in-literal": fmt.Sprintf("S%d VALUES ('a b', 'c d');", i),
+						"ws-tab-in-literal":      fmt.Sprintf("S%d VALUES ('a  b', 'c\td');", i),
+						"ws-newline-in-literal":  fmt.Sprintf("S%d VALUES ('a  b', 'c\nd');", i),
+						"ws-padding-in-literal":  fmt.Sprintf("S%d VALUES ('a  b ', 'c d');", i),
+						"ws-between-words":       fmt.Sprintf("S%d  VALUES ('a  b', 'c d');", i),
+						"ws-newline-for-blank":   fmt.Sprintf("S%d\nVALUES ('a  b', 'c d');", i),
+					} {
+						nw := append([]string{}, ws...)
+						nw[i] = repl
+						for k := 0; k < n; k++ {
+							cases = append(cases, c12Case{Old: ws, K: k, Edit: fmt.Sprintf("%s@%d", name, i), New: nw, Second: (i+k)%2 == 0})
+						}
+					}
+				}
+			}
 			// custom delimiter: a command moves across a statement boundary (the concatenated text, hence
 			// the last cumulative checksum, stays the same)
 			if n >= 2 {
@@ -372,13 +397,17 @@ func c12CLI(e *Env) {
 		n, k    int
 		newTail []string // statements replacing stmts[k:]
 		prefix  bool     // edit the applied part instead
+		trigger bool     // the second statement is a CREATE TRIGGER with inner semicolons (one statement for the SQLite driver's scanner)
 	}
 	vs := []variant{
-		{"tail-shorter", 3, 1, []string{"INSERT INTO journal VALUES (0, 9);"}, false},
-		{"tail-longer", 3, 1, []string{"INSERT INTO journal VALUES (0, 7);", "INSERT INTO journal VALUES (0, 8);", "INSERT INTO journal VALUES (0, 9);"}, false},
-		{"tail-same-count", 3, 2, []string{"INSERT INTO journal VALUES (0, 9);"}, false},
-		{"tail-longer-late", 4, 3, []string{"INSERT INTO journal VALUES (0, 8);", "INSERT INTO journal VALUES (0, 9);"}, false},
-		{"prefix-edited", 3, 2, nil, true},
+		{"tail-shorter", 3, 1, []string{"INSERT INTO journal VALUES (0, 9);"}, false, false},
+		{"tail-longer", 3, 1, []string{"INSERT INTO journal VALUES (0, 7);", "INSERT INTO journal VALUES (0, 8);", "INSERT INTO journal VALUES (0, 9);"}, false, false},
+		{"tail-same-count", 3, 2, []string{"INSERT INTO journal VALUES (0, 9);"}, false, false},
+		{"tail-longer-late", 4, 3, []string{"INSERT INTO journal VALUES (0, 8);", "INSERT INTO journal VALUES (0, 9);"}, false, false},
+		{"prefix-edited", 3, 2, nil, true, false},
+		// the applied part holds a statement only the driver's own scanner keeps in one piece
+		{"tail-after-trigger", 4, 3, []string{"INSERT INTO journal VALUES (0, 8);", "INSERT INTO journal VALUES (0, 9);"}, false, true},
+		{"tail-shorter-after-trigger", 4, 2, []string{"INSERT INTO journal VALUES (0, 9);"}, false, true},
 	}
 	for vi, v := range vs {
 		dir := filepath.Join(e.Work, fmt.Sprintf("c12cli-%d", vi))
@@ -387,6 +416,9 @@ func c12CLI(e *Env) {
 		stmts := []string{"CREATE TABLE journal (f int, i int);"}
 		for i := 1; i < v.n; i++ {
 			stmts = append(stmts, fmt.Sprintf("INSERT INTO journal VALUES (0, %d);", i))
+		}
+		if v.trigger {
+			stmts[1] = "CREATE TRIGGER journal_ai AFTER INSERT ON journal BEGIN UPDATE journal SET i = i WHERE 0; UPDATE journal SET f = f WHERE 0; END;"
 		}
 		bad := append([]string{}, stmts...)
 		bad[v.k] = "INSERT INTO no_such_table VALUES (0, 0);"
